@@ -578,11 +578,15 @@ func calculateHashes(numLeaves uint64, delHashes []Hash, proof Proof) (hashAndPo
 		// Keep incrementing the row if the current position is greater
 		// than the max position on this row.
 		//
-		// Cannot error out here because this loop already checks that
-		// row is lower than totalRows.
+		// Error out if the position is bigger than every position of the
+		// forest as no row can hold it.
 		maxPos, _ := maxPositionAtRow(row, totalRows, numLeaves)
 		for provePos > maxPos {
 			row++
+			if row > totalRows {
+				return hashAndPos{}, nil, fmt.Errorf("invalid proof. Position %d "+
+					"doesn't exist in a forest of %d leaves", provePos, numLeaves)
+			}
 			maxPos, _ = maxPositionAtRow(row, totalRows, numLeaves)
 		}
 
